@@ -263,6 +263,10 @@ def reproduces(rec, native_out):
         return native_out.startswith("PANIC") or native_out.startswith("CRASH")
     if rec.get("compare") == "prefix":
         return native_out.split(" ")[0] == pred.split(" ")[0]
+    if rec.get("compare") == "startswith":
+        if pred == "OK eq=true fixed=false":
+            return native_out.startswith("OK eq=true fixed=false")
+        return native_out.startswith(pred)
     return native_out == pred
 
 
